@@ -89,6 +89,22 @@ theorem reclamped_value_in_new_range (cfg' : Config) (hb : boundsOk cfg' = true)
 
 -- non-vacuity: instances of the hypotheses, and what fails without them ---------------------------------
 
+/-- The comparison of the stored with the new value never panics, whatever the two dynamic values are (also slices and
+    maps, which only a characteristic without a format stores): F50 repair. Before it, two arrays (or two objects) did. -/
+theorem value_comparison_total (a b : GVal) : (goEq a b).isSome = true := by
+  cases a <;> cases b <;> simp [goEq]
+
+theorem value_comparison_unfixed_refuted :
+    goEqOld (.comp (.arr [])) (.comp (.arr [])) = none ∧ goEq (.comp (.arr [])) (.comp (.arr [])) = some true := by
+  decide
+
+/-- The range getters of the typed wrappers (`GetMinValue`, `GetMaxValue`, `GetStepValue`) never panic, whether the
+    characteristic declares that bound or not (F51 repair; 182 getter calls on freshly constructed catalog
+    characteristics panicked before). -/
+theorem range_getters_total (bound : GVal) (t : GType) : rangeGet bound t = .ok := rfl
+
+theorem range_getter_unfixed_refuted : rangeGetOld .nil .int = .panic := by decide
+
 /-- Brightness: int32, pr+pw+ev, [0,100], typed Int callback -/
 def brightness : Config := ⟨.int32, ⟨true, true, true, false, false⟩, .int 0, .int 100, false, some .int⟩
 
@@ -99,11 +115,12 @@ example : (trace (start brightness) [.update (.float (.fin false 101 0)) true tr
       .update (.comp (.arr [])) true true]).map (fun so => ((match so.1.char.value with | .int i => some i | _ => none), so.2.outcome))
     = [(some 100, .ok), (some 50, .ok), (some 0, .ok)] := by decide
 
-/-- an undeclared format (convert's `default:` branch — the branch the string formats took before the
-    F9 repair) is outside the theorem: the second write of an array panics in the comparison -/
+/-- an undeclared format (convert's `default:` branch — what a bare `NewCharacteristic` / `NewInt` / `NewFloat` yields
+    until the application sets a format) is outside the typing theorem, but no longer a way to make a handler panic:
+    the second write of the same array is compared with `reflect.DeepEqual` (F50 repair) -/
 example : (trace (start ⟨.other, ⟨true, true, true, false, false⟩, .nil, .nil, false, none⟩)
       [.update (.comp (.arr [])) true true, .update (.comp (.arr [])) true true]).map (·.2.outcome)
-    = [.ok, .panic] := by decide
+    = [.ok, .ok] := by decide
 
 /-- without `boundsOk` (max < min) the range claim fails -/
 example : (trace (start ⟨.uint8, ⟨true, true, true, false, false⟩, .int 10, .int 5, false, none⟩)
